@@ -43,6 +43,7 @@ STRUCT_RULE = ("struct suite: Go source with 120 (quick) / 1200 (thorough) gener
 PAIR_TB = [
     "hand-written model Impl/{Element,Diff,Emit,Render,ReaderMysql}.lean, tied by correspondence on generated pairs only",
     "regenerated facts: statement templates of sql-templates/*.go (factgen, go/ast) are the ones the model renders with",
+    "regenerated fact (C01, C02, C03, C13): the control skeleton of every function of package element (conditions, branches, loops, early exits, selector calls; factgen skeleton.go) equals the one the diff and print models were written against (Tie.element_skeleton_as_modelled)",
     "third-party parsers (pingcap/parser etc.): type canonicalisation, option restore text and visitor order are assumptions validated by the correspondence",
     "postgres reader glue modelled (Impl/ReaderPg.lean); sqlite reader glue modelled for CREATE TABLE / CREATE INDEX without DEFAULT only, the rest answers 'unmodelled' and is judged by the reference engine on the Go output only",
     "reference engine Spec/Exec.lean and grammar Spec/Grammar.lean (MySQL rules, read not proved)",
@@ -74,7 +75,7 @@ PROPS = {
 
     "C01": {
         "level": "proof",
-        "lean_modules": ["SqlizeModel.Props.C01", "SqlizeModel.Proofs.ScopeB"],
+        "lean_modules": ["SqlizeModel.Props.C01", "SqlizeModel.Proofs.ScopeB", "SqlizeModel.Props.TieElement"],
         "theorems": ["Sqlize.C01.columns", "Sqlize.Abs.columns_up", "Sqlize.Abs.Merge.merge_correct", "Sqlize.Abs.emitUp_correct", "Sqlize.C01.printed_columns", "Sqlize.walkCols_up_refines", "Sqlize.C01.diffed_columns", "Sqlize.Table.diffCols2_names", "Sqlize.Table.diff_cols_tagged", "Sqlize.C01.columns_from_scripts", "Sqlize.columns_end_to_end",
                      "Sqlize.C01.indexes_and_keys_from_scripts", "Sqlize.elems_end_to_end", "Sqlize.Abs.Idx.emit_correct", "Sqlize.Abs.Idx.emitKeep_correct",
                      "Sqlize.Table.walkIdx_refines", "Sqlize.Table.walkFk_refines", "Sqlize.Table.diff_elems",
@@ -86,7 +87,7 @@ PROPS = {
                      "Sqlize.C01.columns_on_reference_engine", "Sqlize.columns_spec_up", "Sqlize.colExecAll_of_abs", "Sqlize.colExecAll_set", "Sqlize.execAll_of_colExecAll", "Sqlize.added_column_def", "Sqlize.Table.walkCols_stmtCols",
                      "Sqlize.C01.changed_column_modified", "Sqlize.perm_of_not_changed", "Sqlize.ckey_inj", "Sqlize.Table.diff_like", "Sqlize.Table.walkCols_modify",
                      "Sqlize.C01.equal_primary_key_untouched", "Sqlize.C01.tables_from_scripts", "Sqlize.Migration.migrate_tbl",
-                     "Sqlize.Migration.diffTables2_appends", "Sqlize.proved_up"],
+                     "Sqlize.Migration.diffTables2_appends", "Sqlize.proved_up", "Sqlize.Tie.element_skeleton_as_modelled"],
         "suites": [{"name": "pair"}],
         "corr_points": ["load-old", "load-new", "state-old", "state-new", "Diff", "state-diff", "StringUp"],
         "rule": PAIR_RULE,
@@ -115,7 +116,7 @@ PROPS = {
     },
     "C02": {
         "level": "proof",
-        "lean_modules": ["SqlizeModel.Props.C02", "SqlizeModel.Proofs.ScopeB"],
+        "lean_modules": ["SqlizeModel.Props.C02", "SqlizeModel.Proofs.ScopeB", "SqlizeModel.Props.TieElement"],
         "theorems": ["Sqlize.C02.columns", "Sqlize.C02.up_down_identity", "Sqlize.Abs.emitDown_correct", "Sqlize.C02.printed_columns", "Sqlize.walkCols_down_refines", "Sqlize.C02.diffed_columns", "Sqlize.C02.columns_from_scripts",
                      "Sqlize.C02.indexes_and_keys_from_scripts", "Sqlize.Abs.Idx.emitDown_correct", "Sqlize.Abs.Idx.emitDownKeep_correct",
                      "Sqlize.Table.walkIdx_refines_down", "Sqlize.Table.walkFk_refines_down",
@@ -124,7 +125,7 @@ PROPS = {
                      "Sqlize.C02.columns_on_reference_engine", "Sqlize.columns_spec_down", "Sqlize.removed_column_def", "Sqlize.Table.diffCols2_mem_full",
                      "Sqlize.C02.indexes_with_dropped_columns", "Sqlize.Abs.Idx.emitDownSup_correct", "Sqlize.Table.walkIdx_refines_down_sup",
                      "Sqlize.equal_pk_untouched_down", "Sqlize.table_spec_down_any", "Sqlize.table_stmts_justified_down", "Sqlize.loaded_table_spec",
-                     "Sqlize.schema_spec_down", "Sqlize.C02.schema_on_reference_engine", "Sqlize.C02.up_then_down_on_reference_engine", "Sqlize.proved_down"],
+                     "Sqlize.schema_spec_down", "Sqlize.C02.schema_on_reference_engine", "Sqlize.C02.up_then_down_on_reference_engine", "Sqlize.proved_down", "Sqlize.Tie.element_skeleton_as_modelled"],
         "suites": [{"name": "pair"}],
         "corr_points": ["load-old", "load-new", "state-old", "state-new", "Diff", "state-diff", "StringUp", "StringDown"],
         "rule": PAIR_RULE,
@@ -144,10 +145,10 @@ PROPS = {
     },
     "C03": {
         "level": "proof",
-        "lean_modules": ["SqlizeModel.Props.C03", "SqlizeModel.Proofs.ScopeB"],
+        "lean_modules": ["SqlizeModel.Props.C03", "SqlizeModel.Proofs.ScopeB", "SqlizeModel.Props.TieElement"],
         "theorems": ["Sqlize.C03.unchanged_prints_nothing", "Sqlize.C03.same_options_unchanged", "Sqlize.migrate_quiet",
                      "Sqlize.C03.equal_content_empty", "Sqlize.C03.self_diff_empty", "Sqlize.C03.same_script_empty", "Sqlize.C03.equal_schemas_from_scripts",
-                     "Sqlize.hasChangedOptions_of_perm", "Sqlize.ReaderMysql.step_plain", "Sqlize.table_same", "Sqlize.Table.diff_same", "Sqlize.Migration.diff_same", "Sqlize.C03.schema_on_reference_engine", "Sqlize.C03.equal_table_never_justified", "Sqlize.schema_c03", "Sqlize.dbEquiv_of_equiv", "Sqlize.proved_both"],
+                     "Sqlize.hasChangedOptions_of_perm", "Sqlize.ReaderMysql.step_plain", "Sqlize.table_same", "Sqlize.Table.diff_same", "Sqlize.Migration.diff_same", "Sqlize.C03.schema_on_reference_engine", "Sqlize.C03.equal_table_never_justified", "Sqlize.schema_c03", "Sqlize.dbEquiv_of_equiv", "Sqlize.proved_both", "Sqlize.Tie.element_skeleton_as_modelled"],
         "suites": [{"name": "pair"}, {"name": "struct", "kind": "struct"}],
         "corr_points": ["load-old", "load-new", "state-old", "state-new", "Diff", "state-diff", "StringUp", "StringDown", "StringUp-2nd"],
         "rule": PAIR_RULE,
@@ -167,8 +168,8 @@ PROPS = {
     },
     "C13": {
         "level": "proof",
-        "lean_modules": ["SqlizeModel.Props.C13"],
-        "theorems": ["Sqlize.C13.default_order", "Sqlize.C13.ignore_same_statements", "Sqlize.C13.ignore_no_position", "Sqlize.C13.ignore_appends", "Sqlize.C13.printed_ignore", "Sqlize.walkCols_up_ignore_refines", "Sqlize.C13.columns_from_scripts", "Sqlize.columns_end_to_end_ignore"],
+        "lean_modules": ["SqlizeModel.Props.C13", "SqlizeModel.Props.TieElement"],
+        "theorems": ["Sqlize.C13.default_order", "Sqlize.C13.ignore_same_statements", "Sqlize.C13.ignore_no_position", "Sqlize.C13.ignore_appends", "Sqlize.C13.printed_ignore", "Sqlize.walkCols_up_ignore_refines", "Sqlize.C13.columns_from_scripts", "Sqlize.columns_end_to_end_ignore", "Sqlize.Tie.element_skeleton_as_modelled"],
         "suites": [{"name": "pair"}, {"name": "history"}],
         "corr_points": ["load-old", "load-new", "state-old", "state-new", "Diff", "state-diff", "StringUp", "StringDown"],
         "rule": PAIR_RULE,
